@@ -168,10 +168,42 @@ func C04(run *mon.Run) {
 					if d, err := crypto.DecodePublicKey(BLS, pks[i].Encode()); err == nil {
 						pks[i] = d
 					}
+				} else if i%3 == 2 && si%2 == 0 && k.Sign() != 0 {
+					// ... and in Jacobian form with Z != 1 (what RemoveBLSPublicKeys hands out)
+					pks[i] = jacobianForm(pks[i], r)
 				}
 				sum = ref.Fr.Add(sum, k)
 			}
-			rep := map[string]any{"kind": kind, "scalars": scalarStrings(ks)}
+			rep := map[string]any{"kind": kind, "scalars": scalarStrings(ks), "rejected_calls_first": si%2 == 1}
+			// on odd sets every aggregation call is preceded, on this goroutine, by calls of the same function
+			// that are REJECTED (a bad entry behind good ones, a foreign key, an empty list): what a rejected
+			// call leaves behind (scratch buffers, pooled objects) must not leak into the next result
+			poison := func(what string) {
+				if si%2 == 0 {
+					return
+				}
+				run.Count("rejected-call-first."+what, 1)
+				switch what {
+				case "sigs":
+					good := ref.EncodeG1(ref.E1.Mul(ref.G1Gen, randScalar(r)))
+					good2 := ref.EncodeG1(ref.E1.Mul(ref.G1Gen, randScalar(r)))
+					for _, l := range [][]crypto.Signature{{good, good2, good[:47]}, {good, append(append([]byte{}, good2...), 0)}, {good, good2, crypto.BLSInvalidSignature()}, {}, {good, nil, good2}} {
+						if _, e := crypto.AggregateBLSSignatures(l); e == nil {
+							run.Violate("C04:error-class:rejected-list-accepted", "AggregateBLSSignatures accepted a list with a malformed entry", rep)
+						}
+					}
+				case "pks":
+					ec, _ := crypto.GeneratePrivateKey(crypto.ECDSAP256, bytes.Repeat([]byte{7}, 32))
+					q := skFromInt(randScalar(r)).PublicKey()
+					_, _ = crypto.AggregateBLSPublicKeys([]crypto.PublicKey{q, q, ec.PublicKey()})
+					_, _ = crypto.AggregateBLSPublicKeys(nil)
+					_, _ = crypto.RemoveBLSPublicKeys(q, []crypto.PublicKey{q, ec.PublicKey()})
+				case "sks":
+					ec, _ := crypto.GeneratePrivateKey(crypto.ECDSASecp256k1, bytes.Repeat([]byte{7}, 32))
+					_, _ = crypto.AggregateBLSPrivateKeys([]crypto.PrivateKey{skFromInt(randScalar(r)), ec})
+					_, _ = crypto.AggregateBLSPrivateKeys(nil)
+				}
+			}
 			nb := "N<=4"
 			if len(ks) > 4 {
 				nb = "N>4"
@@ -179,6 +211,7 @@ func C04(run *mon.Run) {
 			// --- private keys
 			var aggSk crypto.PrivateKey
 			var err error
+			poison("sks")
 			if run.Guard("AggregateBLSPrivateKeys", rep, func() { aggSk, err = nestAggregateSks(r, sks) }) {
 				return
 			}
@@ -190,6 +223,7 @@ func C04(run *mon.Run) {
 			// --- public keys
 			wantPk := ref.EncodeG2(ref.E2.Mul(ref.G2Gen, sum), cv)
 			var aggPk crypto.PublicKey
+			poison("pks")
 			if run.Guard("AggregateBLSPublicKeys", rep, func() { aggPk, err = nestAggregatePks(r, pks) }) {
 				return
 			}
@@ -298,6 +332,7 @@ func C04(run *mon.Run) {
 			}
 			wantSig := ref.EncodeG1(ref.E1.Mul(H, sum))
 			var aggSig crypto.Signature
+			poison("sigs")
 			if run.Guard("AggregateBLSSignatures", rep, func() { aggSig, err = nestAggregateSigs(r, permute(r, sigs)) }) {
 				return
 			}
@@ -331,6 +366,7 @@ func C04(run *mon.Run) {
 				}
 				wantA := ref.EncodeG2(ref.E2.Mul(ref.G2Gen, sumA), cv)
 				var rem crypto.PublicKey
+				poison("pks")
 				if !run.Guard("RemoveBLSPublicKeys", rep, func() { rem, err = crypto.RemoveBLSPublicKeys(aggPk, permute(r, B)) }) {
 					run.Eval(1)
 					aggA, _ := crypto.AggregateBLSPublicKeys(A)
